@@ -43,6 +43,9 @@ func Plan(seed uint64, n int) []string {
 // three subscription ids that differ only in letter case: three subscriptions
 var subIDs = []string{"billing-sub", "Billing-Sub", "BILLING-SUB"}
 
+// zones the appended timestamps are expressed in (the instant is what must survive)
+var zones = []*time.Location{time.UTC, time.FixedZone("LMT", 3600+17*60+37), time.FixedZone("", -(4*3600 + 59)), time.FixedZone("EST", -5*3600), time.FixedZone("odd/+x", 1800*9)}
+
 func main() {
 	if len(os.Args) < 6 {
 		fmt.Fprintln(os.Stderr, "usage: sqlitechild <db> <ackfile> <seed> <ops> <close>")
@@ -107,7 +110,7 @@ func main() {
 		switch op {
 		case "A":
 			data, _ := json.Marshal(map[string]any{"id": next, "pad": fmt.Sprintf("%0*d", 10+(next*37)%300, next)})
-			off, err := st.Append(ctx, &ebu.Event{Type: "c14.event", Data: data, Timestamp: time.Unix(1700000000+int64(next), 0).UTC()})
+			off, err := st.Append(ctx, &ebu.Event{Type: "c14.event", Data: data, Timestamp: time.Unix(1700000000+int64(next), 0).In(zones[next%len(zones)])})
 			if err != nil {
 				fmt.Fprintln(os.Stderr, "append:", err)
 				os.Exit(5)
